@@ -1,9 +1,397 @@
 package drv
 
 import (
+	"crypto/sha256"
+	"encoding/binary"
+	"encoding/hex"
 	"encoding/json"
+	"fmt"
+	"time"
 
 	"github.com/cloudwego/thriftgo/internal/verifsim/simrt"
+	"github.com/cloudwego/thriftgo/plugin"
 )
 
-func pluginProgram(p *simrt.Proc, script json.RawMessage) int { return 0 }
+// PlugFile is one item of a scripted plugin response.
+type PlugFile struct {
+	Name    string `json:"name,omitempty"`
+	IP      string `json:"ip,omitempty"`
+	Content string `json:"content"`
+}
+
+// PlugScript describes the behaviour of one simulated plugin process.
+type PlugScript struct {
+	ReadStdin   *int       `json:"read_stdin,omitempty"` // nil: read everything; n: read n bytes and stop reading
+	Decode      bool       `json:"decode,omitempty"`     // decode the request with the tree's own UnmarshalRequest and note its canonical dump
+	Files       []PlugFile `json:"files,omitempty"`
+	Warnings    []string   `json:"warnings,omitempty"`
+	Error       *string    `json:"error,omitempty"`
+	NoResponse  bool       `json:"no_response,omitempty"` // write nothing to stdout
+	Mangle      string     `json:"mangle,omitempty"`      // "" | truncate | flip | random | append | empty
+	MangleAt    int        `json:"mangle_at,omitempty"`
+	MangleSeed  uint64     `json:"mangle_seed,omitempty"`
+	Chunks      int        `json:"chunks,omitempty"`
+	Stderr      string     `json:"stderr,omitempty"`
+	DelayBefore int64      `json:"delay_before_ns,omitempty"`
+	DelayMid    int64      `json:"delay_mid_ns,omitempty"`
+	DelayAfter  int64      `json:"delay_after_ns,omitempty"`
+	Hang        string     `json:"hang,omitempty"` // before | mid | after
+	Exit        int        `json:"exit,omitempty"`
+	ExitAfter   *int       `json:"exit_after,omitempty"` // exit (with Exit) after that many bytes of stdout
+	OutPrefix   string     `json:"out_prefix,omitempty"` // names of files are prefixed with the request's OutputPath if set to "$OUT"
+}
+
+func sha(b []byte) string {
+	h := sha256.Sum256(b)
+	return hex.EncodeToString(h[:])
+}
+
+// classifyResponse is an independent reader of the binary encoding of
+// Response{1: optional string Error, 2: optional list<Generated>, 3: optional list<string>}
+// with Generated{1: required string Content, 2: optional string Name, 3: optional string InsertionPoint}.
+// It returns "valid", "valid-trailing", "odd" (decodable but with fields of an
+// unexpected type or id: behaviour left unasserted) or "invalid".
+func classifyResponse(b []byte) string {
+	odd := false
+	var skip func(p int, t byte, depth int) int
+	readStruct := func(p int, depth int, onField func(id int16, t byte, p int) int) int { return -1 }
+	_ = readStruct
+	skip = func(p int, t byte, depth int) int {
+		if depth > 32 || p < 0 {
+			return -1
+		}
+		need := func(n int) bool { return n >= 0 && p+n <= len(b) }
+		switch t {
+		case 2, 3: // bool, byte
+			if !need(1) {
+				return -1
+			}
+			return p + 1
+		case 6:
+			if !need(2) {
+				return -1
+			}
+			return p + 2
+		case 8:
+			if !need(4) {
+				return -1
+			}
+			return p + 4
+		case 4, 10:
+			if !need(8) {
+				return -1
+			}
+			return p + 8
+		case 11:
+			if !need(4) {
+				return -1
+			}
+			n := int(int32(binary.BigEndian.Uint32(b[p:])))
+			p += 4
+			if n < 0 || p+n > len(b) {
+				return -1
+			}
+			return p + n
+		case 12:
+			for {
+				if p >= len(b) {
+					return -1
+				}
+				ft := b[p]
+				p++
+				if ft == 0 {
+					return p
+				}
+				if p+2 > len(b) {
+					return -1
+				}
+				p += 2
+				p = skip(p, ft, depth+1)
+				if p < 0 {
+					return -1
+				}
+			}
+		case 13:
+			if !need(6) {
+				return -1
+			}
+			kt, vt := b[p], b[p+1]
+			n := int(int32(binary.BigEndian.Uint32(b[p+2:])))
+			p += 6
+			if n < 0 || n > len(b) {
+				return -1
+			}
+			for i := 0; i < n; i++ {
+				p = skip(p, kt, depth+1)
+				p = skip(p, vt, depth+1)
+				if p < 0 {
+					return -1
+				}
+			}
+			return p
+		case 14, 15:
+			if !need(5) {
+				return -1
+			}
+			et := b[p]
+			n := int(int32(binary.BigEndian.Uint32(b[p+1:])))
+			p += 5
+			if n < 0 || n > len(b) {
+				return -1
+			}
+			for i := 0; i < n; i++ {
+				p = skip(p, et, depth+1)
+				if p < 0 {
+					return -1
+				}
+			}
+			return p
+		}
+		return -1
+	}
+	str := func(p int) int { return skip(p, 11, 0) }
+	generated := func(p int) int {
+		hasContent := false
+		for {
+			if p >= len(b) {
+				return -1
+			}
+			ft := b[p]
+			p++
+			if ft == 0 {
+				break
+			}
+			if p+2 > len(b) {
+				return -1
+			}
+			id := int16(binary.BigEndian.Uint16(b[p:]))
+			p += 2
+			if id >= 1 && id <= 3 && ft == 11 {
+				if id == 1 {
+					hasContent = true
+				}
+				p = str(p)
+			} else {
+				odd = true
+				p = skip(p, ft, 1)
+			}
+			if p < 0 {
+				return -1
+			}
+		}
+		if !hasContent {
+			return -1 // required field missing
+		}
+		return p
+	}
+	p := 0
+	for {
+		if p >= len(b) {
+			return "invalid"
+		}
+		ft := b[p]
+		p++
+		if ft == 0 {
+			break
+		}
+		if p+2 > len(b) {
+			return "invalid"
+		}
+		id := int16(binary.BigEndian.Uint16(b[p:]))
+		p += 2
+		switch {
+		case id == 1 && ft == 11:
+			p = str(p)
+		case id == 2 && ft == 15:
+			if p+5 > len(b) {
+				return "invalid"
+			}
+			et := b[p]
+			n := int(int32(binary.BigEndian.Uint32(b[p+1:])))
+			p += 5
+			if n < 0 || n > len(b) {
+				return "invalid"
+			}
+			if et != 12 {
+				odd = true
+				for i := 0; i < n && p >= 0; i++ {
+					p = skip(p, et, 1)
+				}
+			} else {
+				for i := 0; i < n && p >= 0; i++ {
+					p = generated(p)
+				}
+			}
+		case id == 3 && ft == 15:
+			if p+5 > len(b) {
+				return "invalid"
+			}
+			et := b[p]
+			n := int(int32(binary.BigEndian.Uint32(b[p+1:])))
+			p += 5
+			if n < 0 || n > len(b) {
+				return "invalid"
+			}
+			if et != 11 {
+				odd = true
+			}
+			for i := 0; i < n && p >= 0; i++ {
+				p = skip(p, et, 1)
+			}
+		default:
+			odd = true
+			p = skip(p, ft, 1)
+		}
+		if p < 0 {
+			return "invalid"
+		}
+	}
+	if odd {
+		return "odd"
+	}
+	if p < len(b) {
+		return "valid-trailing"
+	}
+	return "valid"
+}
+
+func pluginProgram(p *simrt.Proc, raw json.RawMessage) int {
+	var sc PlugScript
+	if err := json.Unmarshal(raw, &sc); err != nil {
+		p.Note("script.error", err.Error())
+		return 97
+	}
+	if sc.DelayBefore > 0 {
+		p.Sleep(time.Duration(sc.DelayBefore))
+	}
+	if sc.Hang == "before" {
+		p.Hang()
+	}
+	n := -1
+	if sc.ReadStdin != nil {
+		n = *sc.ReadStdin
+	}
+	in := p.ReadStdin(n)
+	p.Note("stdin.sha256", sha(in))
+	p.Note("stdin.len", len(in))
+	outPath := ""
+	if sc.Decode && n < 0 {
+		func() {
+			defer func() {
+				if r := recover(); r != nil {
+					p.Note("req.panic", fmt.Sprint(r))
+				}
+			}()
+			req, err := plugin.UnmarshalRequest(in)
+			if err != nil {
+				p.Note("req.err", err.Error())
+				return
+			}
+			outPath = req.OutputPath
+			p.Note("req.dump", simrt.DumpTree(req))
+			p.Note("req.version", req.Version)
+			p.Note("req.language", req.Language)
+			p.Note("req.output_path", req.OutputPath)
+			p.Note("req.recursive", req.Recursive)
+			p.Note("req.generator_parameters", req.GeneratorParameters)
+			p.Note("req.plugin_parameters", req.PluginParameters)
+		}()
+	}
+	if sc.DelayMid > 0 {
+		p.Sleep(time.Duration(sc.DelayMid))
+	}
+	if sc.Hang == "mid" {
+		p.Hang()
+	}
+	if sc.Stderr != "" {
+		p.Write(2, []byte(sc.Stderr))
+	}
+	var out []byte
+	if !sc.NoResponse {
+		res := plugin.NewResponse()
+		res.Error = sc.Error
+		res.Warnings = sc.Warnings
+		for i := range sc.Files {
+			f := &sc.Files[i]
+			g := &plugin.Generated{Content: f.Content}
+			if f.Name != "" {
+				nm := f.Name
+				if sc.OutPrefix == "$OUT" && outPath != "" {
+					nm = outPath + "/" + nm
+				}
+				g.Name = &nm
+			}
+			if f.IP != "" {
+				ip := f.IP
+				g.InsertionPoint = &ip
+			}
+			res.Contents = append(res.Contents, g)
+		}
+		out, _ = plugin.MarshalResponse(res)
+	}
+	clean := sha(out)
+	switch sc.Mangle {
+	case "truncate":
+		at := sc.MangleAt
+		if len(out) > 0 {
+			at %= len(out)
+			if at < 0 {
+				at = -at
+			}
+			out = out[:at]
+		}
+	case "flip":
+		r := simrt.NewRand(sc.MangleSeed)
+		k := 1 + r.Intn(4)
+		out = append([]byte(nil), out...)
+		for i := 0; i < k && len(out) > 0; i++ {
+			out[r.Intn(len(out))] ^= 1 << uint(r.Intn(8))
+		}
+	case "random":
+		r := simrt.NewRand(sc.MangleSeed)
+		out = make([]byte, 1+r.Intn(64))
+		for i := range out {
+			out[i] = byte(r.Uint64())
+		}
+	case "append":
+		out = append(append([]byte(nil), out...), []byte("trailing garbage \x00\x01\x02")...)
+	case "empty":
+		out = nil
+	}
+	p.Note("out.sha256", sha(out))
+	p.Note("out.len", len(out))
+	p.Note("out.mangled", sha(out) != clean)
+	p.Note("out.class", classifyResponse(out))
+	limit := len(out)
+	if sc.ExitAfter != nil && *sc.ExitAfter < limit && *sc.ExitAfter >= 0 {
+		limit = *sc.ExitAfter
+		p.Note("out.cut_at", limit)
+		p.Note("out.class", classifyResponse(out[:limit]))
+	}
+	chunks := sc.Chunks
+	if chunks <= 0 {
+		chunks = 1
+	}
+	per := (limit + chunks - 1) / chunks
+	if per == 0 {
+		per = 1
+	}
+	for off := 0; off < limit; off += per {
+		end := off + per
+		if end > limit {
+			end = limit
+		}
+		p.Write(1, out[off:end])
+		if off == 0 && sc.DelayMid > 0 && chunks > 1 {
+			p.Sleep(time.Duration(sc.DelayMid))
+		}
+	}
+	p.Note("out.written", limit)
+	if sc.DelayAfter > 0 {
+		p.Sleep(time.Duration(sc.DelayAfter))
+	}
+	if sc.Hang == "after" {
+		p.Hang()
+	}
+	return sc.Exit
+}
